@@ -4,7 +4,7 @@ parsed program to compute remove_hanging of Model/IdPool.v.  The method is parse
 comprehensions are the shapes).  Fail-closed.  Variable names are free.
 
 Trusted: this parser and the reading of the shapes (set().union(*[la.F for la in C]) = the ids referenced through F by
-the lanelets of C; `x in set(X - Y)` = in X and not in Y; LaneletNetwork.traffic_signs / traffic_lights list the stored
+the lanelets of C; `x in set(X - Y)` / `x in X.difference(Y)` / `x in X and x not in Y` = in X and not in Y; LaneletNetwork.traffic_signs / traffic_lights list the stored
 elements in insertion order; find_K_by_id(id) of a listed element is that element)."""
 import ast
 import hashlib
@@ -93,6 +93,15 @@ def text():
             rhs = test.comparators[0] if ok else None
             if ok and isinstance(rhs, ast.Call) and u(rhs.func) == "set" and len(rhs.args) == 1:
                 rhs = rhs.args[0]
+            if ok and isinstance(rhs, ast.Call) and isinstance(rhs.func, ast.Attribute) and rhs.func.attr == "difference" \
+                    and len(rhs.args) == 1 and not rhs.keywords:
+                rhs = ast.BinOp(left=rhs.func.value, op=ast.Sub(), right=rhs.args[0])        # X.difference(Y) = X - Y
+            if not ok and isinstance(test, ast.BoolOp) and isinstance(test.op, ast.And) and len(test.values) == 2:
+                a, b = test.values                  # t.id in X and t.id not in Y
+                if isinstance(a, ast.Compare) and isinstance(b, ast.Compare) and len(a.ops) == 1 and len(b.ops) == 1 \
+                        and isinstance(a.ops[0], ast.In) and isinstance(b.ops[0], ast.NotIn) \
+                        and u(a.left) == u(b.left) == f"{t}.{idattr}":
+                    ok, rhs = True, ast.BinOp(left=a.comparators[0], op=ast.Sub(), right=b.comparators[0])
             if not (ok and isinstance(rhs, ast.BinOp) and isinstance(rhs.op, ast.Sub) and u(rhs.left) in sets
                     and u(rhs.right) in sets):
                 bad(s.body[0], "selection test is not `t.id in set(X - Y)`")
